@@ -838,6 +838,8 @@ def judge_queries(body, nvars, a):
                         cover[x] += 1
             if any(c > 1 for c in cover):
                 bad.append(("cubes-overlap", "cubes of handle %d towards %s overlap" % (h, goal)))
+            if any((gv in ng_ and goal) or (gv in ps_ and not goal) for (ng_, ps_) in cubes):
+                bad.append(("cubes-outside-goal", "a cube of handle %d towards %s fixes the goal variable %d to the other value: it covers no (counter-)model where the goal variable has the goal value" % (h, goal, gv)))
             for x in range(size):
                 if bool(x >> gv & 1) == goal:
                     if (bool(tt >> x & 1) == goal) != (cover[x] > 0):
@@ -1831,7 +1833,7 @@ def check_C14(ck, res, replay):
         os.makedirs(tmpd, exist_ok=True)
         n_exp = 0
         for i in range(25 if res.tier == "quick" else 300):
-            t1, _ = gen.gen_adf(rng, nmax=5, depth=3)
+            t1, _ = gen.gen_adf(rng, nmax=5, depth=3, layout={"shuffle": rng.chance(2, 3)})       # (declaration order = variable order: often not sorted)
             t2, _ = gen.gen_adf(rng, nmax=5, depth=3)
             f1, f2, ex = [os.path.join(tmpd, "%d.%s" % (i, x)) for x in ("a.adf", "b.adf", "json")]
             open(f1, "w").write(t1); open(f2, "w").write(t2)
@@ -1870,6 +1872,14 @@ def check_C14(ck, res, replay):
             if r3.returncode != 0 or r3.stdout != r1.stdout:
                 res.violations.append({"key": "import:answers-differ", "what": "--import of an exported state answers differently from the original run",
                                        "text": t1, "observed": [r1.stdout, r3.stdout, r3.returncode]})
+            # a sorting flag given together with --import must not change which value belongs to which statement
+            as_maps = lambda out_: sorted(tuple(sorted((tok[2:-1], tok[0]) for tok in ln.split())) for ln in out_.splitlines() if ln.strip())
+            for sflag in ("--lx", "--an"):
+                r4 = subprocess.run([binary, "--lib", "naive", sflag, "--import", "--grd", "--stm", ex], capture_output=True, text=True, env=envp, timeout=60)
+                if r4.returncode != 0 or as_maps(r4.stdout) != as_maps(r1.stdout):
+                    res.violations.append({"key": "import:answers-differ:" + sflag, "what": "--import together with %s assigns the values to other statements than the original run" % sflag,
+                                           "text": t1, "observed": [r1.stdout, r4.stdout, r4.returncode]})
+                    break
             n_exp += 1
             for f in (f1, f2, ex):
                 os.remove(f)
@@ -2240,6 +2250,12 @@ def check_C15(ck, res, replay):
                 t_ = 's(%s).s(k).s(m).ac(%s,neg(k)).ac(k,neg(%s)).ac(m,and(%s,neg(m))).' % (lab, lab, lab, lab)
                 for mode in ("hybrid", "biodivine", "naive"):
                     add(t_, mode, rng.pick(["none", "lexi"]), ["grd", "stm"], None)
+    if not replay:
+        # many answers: ten self-supporting statements have 1024 two-valued models (and one stable model); every line must arrive
+        many_ = "".join("s(m%d)." % i for i in range(10)) + "".join("ac(m%d,m%d)." % (i, i) for i in range(10))
+        for mode in ("hybrid", "naive", "biodivine"):
+            add(many_, mode, "none", ["twoval"], None)
+            add(many_, mode, "none", ["stmng", "twoval"], "MinModMinPathsMaxVarImp")
     real = run_cli_cases(ck, binary, cases) if binary else {}
     model, f2 = ck.run_sharded(os.path.join(ck.ROOT, "ocaml", "driver"), cf.lines, "C15.model")
     if f2:
